@@ -70,7 +70,7 @@ class llc (packet_base):
     self.length = 3
     (self.dsap, self.ssap, self.control) \
         = struct.unpack('!BBB', raw[:self.MIN_LEN])
-    if ((self.control & 1) == 0) or ((self.control & 3) == 2):
+    if (self.control & 3) != 3:
       if dlen < self.length + 1:
         self.msg('(llc parse) warning: packet data too short')
         return
